@@ -331,6 +331,20 @@ def opJacobians (j : Json) : Except String Json := do
   return okJ (Json.mkObj [("G", matJ G), ("V", matJ V), ("H", Json.mkObj hs), ("M", matJ d.processNoiseMatrix),
     ("Ls", Json.arr (d.Ls.map Json.str).toArray), ("Lc", Json.arr (d.Lc.map Json.str).toArray)])
 
+/-- `emitted`: the ordered artifact of a filter definition (argument order, number of update statements, noise diagonals, sensor
+ids, reading slots and per-reading noises) -/
+def opEmitted (j : Json) : Except String Json := do
+  let d ← jEkfDef (← j.getObjVal? "ekf")
+  let e := d.emitted
+  let strs (l : List String) : Json := Json.arr (l.map Json.str).toArray
+  let rats (l : List Rat) : Json := Json.arr (l.map fun q => Json.str (ratStr q)).toArray
+  return okJ (Json.mkObj [("arglist", strs e.arglist), ("M", rats e.M),
+    ("statements", match e.update with | some u => (u.length : Nat) | none => Json.null),
+    ("G", match e.G with | some u => (u.length : Nat) | none => Json.null),
+    ("V", match e.V with | some u => (u.length : Nat) | none => Json.null),
+    ("sensors", Json.arr (e.sensors.map fun s => Json.mkObj [("key", Json.str s.key), ("readings", strs s.readings), ("noise", rats s.noise),
+      ("jac", match s.jac with | some u => (u.length : Nat) | none => Json.null)]).toArray)])
+
 def doPredict (d : EkfDef) (p : Point) (P : QMat d.n d.n) : Except String (List Rat × QMat d.n d.n) := do
   let env := processEnv d p
   let G ← opt "undefined" (d.processJacobian env)
@@ -564,6 +578,7 @@ def dispatch (j : Json) : Except String Json := do
   | "jacobians" => opJacobians j
   | "predict" => opPredict j
   | "update" => opUpdate j
+  | "emitted" => opEmitted j
   | "decide" => opDecide j
   | "accept" => opAccept j
   | "skeleton" => opSkeleton j
